@@ -2,6 +2,7 @@ package harness
 
 import (
 	"context"
+	"errors"
 	"fmt"
 	"math"
 	"net/netip"
@@ -161,6 +162,7 @@ type engCase struct {
 	first, last           int
 	timeout, poll, delay  time.Duration
 	script                []scriptEntry
+	cancelAt              time.Duration // 0: the caller's context is never cancelled
 }
 
 func (c engCase) input() sx {
@@ -168,7 +170,7 @@ func (c engCase) input() sx {
 	for _, e := range c.script {
 		es = append(es, L(sxInt(int64(e.ttl)), sxInt(int64(e.delay)), sxInt(int64(e.ip)), sxBool(e.dest), sxInt(int64(e.kind))))
 	}
-	return L(sxInt(1), sxBool(c.serial), sxInt(int64(c.first)), sxInt(int64(c.last)), sxInt(int64(c.timeout)), sxInt(int64(c.poll)), sxInt(int64(c.delay)), es)
+	return L(sxInt(1), sxBool(c.serial), sxInt(int64(c.first)), sxInt(int64(c.last)), sxInt(int64(c.timeout)), sxInt(int64(c.poll)), sxInt(int64(c.delay)), es, sxInt(int64(c.cancelAt)))
 }
 
 type engObs struct {
@@ -196,10 +198,15 @@ func runEngCase(t *testing.T, c engCase) engObs {
 		t0 := time.Now()
 		var res []*common.ProbeResponse
 		var err error
+		ctx, cancel := context.WithCancel(context.Background())
+		defer cancel()
+		if c.cancelAt > 0 {
+			time.AfterFunc(c.cancelAt, cancel)
+		}
 		if c.serial {
-			res, err = common.TracerouteSerial(context.Background(), d, common.TracerouteSerialParams{TracerouteParams: tp})
+			res, err = common.TracerouteSerial(ctx, d, common.TracerouteSerialParams{TracerouteParams: tp})
 		} else {
-			res, err = common.TracerouteParallel(context.Background(), d, common.TracerouteParallelParams{TracerouteParams: tp})
+			res, err = common.TracerouteParallel(ctx, d, common.TracerouteParallelParams{TracerouteParams: tp})
 		}
 		o.elapsed = time.Since(t0)
 		d.mu.Lock()
@@ -212,6 +219,9 @@ func runEngCase(t *testing.T, c engCase) engObs {
 		d.mu.Unlock()
 		if err != nil {
 			o.status = 1
+			if errors.Is(err, context.Canceled) {
+				o.status = 4
+			}
 			return
 		}
 		hops, herr := common.ToHops(tp, res)
@@ -266,7 +276,7 @@ func genEngCase(r *rng, idx int) engCase {
 	if r.intn(4) != 0 {
 		destAt = c.first + r.intn(n)
 	}
-	used := map[int]bool{500: true, 0: true}
+	used := map[int]bool{500: true, 0: true, 333: true}
 	resid := func() time.Duration {
 		for {
 			x := 1 + r.intn(998)
@@ -317,6 +327,11 @@ func genEngCase(r *rng, idx int) engCase {
 			e.ttl = c.first + r.intn(n)
 		}
 		c.script = append(c.script, e)
+	}
+	if r.intn(5) == 0 {
+		// external cancellation at an arbitrary instant of the run (or after it)
+		c.cancelAt = time.Duration(1+r.intn(horizon+100))*msNs + 333
+		used[333] = true
 	}
 	// shuffle script order (order only matters on equal ready times, which the residues exclude)
 	for i := len(c.script) - 1; i > 0; i-- {
@@ -425,6 +440,9 @@ func labEng(e labEnv) {
 			tags["parallel"]++
 		}
 		tags[fmt.Sprintf("status%d", obs[i].status)]++
+		if c.cancelAt > 0 {
+			tags["with_cancellation"]++
+		}
 		tags[fmt.Sprintf("script_len_%d", min(len(c.script), 12))]++
 	}
 	must(w.close())
